@@ -1,6 +1,7 @@
 package sim
 
 import (
+	"bytes"
 	"fmt"
 	"io"
 	"sort"
@@ -40,6 +41,22 @@ func (w *World) sockOf(alias string) engine.Socket {
 	w.mu.Lock()
 	defer w.mu.Unlock()
 	return w.Socks[alias]
+}
+
+// slowReader is application data that takes its time: a plain io.Reader (so the packet is binary) whose first
+// Read blocks for a while - the transport's writer goroutine sits in the middle of its batch meanwhile.
+type slowReader struct {
+	r    io.Reader
+	ms   int
+	done bool
+}
+
+func (s *slowReader) Read(b []byte) (int, error) {
+	if !s.done {
+		s.done = true
+		simrt.Sleep(time.Duration(s.ms) * time.Millisecond)
+	}
+	return s.r.Read(b)
 }
 
 func msgReader(data []byte, binary bool) io.Reader {
@@ -112,10 +129,15 @@ func (w *World) appSend(task, alias string, sock engine.Socket, o AppOp) {
 	w.sent[alias] = append(w.sent[alias], SentMsg{ID: o.ID, Data: data, Binary: o.Binary, Seq: seq, Sender: task, CB: o.CB, State: st})
 	idx := len(w.sent[alias]) - 1
 	w.mu.Unlock()
+	var rd io.Reader = msgReader(data, o.Binary)
+	if o.SlowMs > 0 && o.Binary && o.Opt != "preencoded" {
+		w.probe("slow_data_reader")
+		rd = &slowReader{r: bytes.NewReader(append([]byte(nil), data...)), ms: o.SlowMs}
+	}
 	if o.UseWrite {
-		sock.Write(msgReader(data, o.Binary), opts, cb)
+		sock.Write(rd, opts, cb)
 	} else {
-		sock.Send(msgReader(data, o.Binary), opts, cb)
+		sock.Send(rd, opts, cb)
 	}
 	simrt.Yield(-5)
 	ret := w.recx(Ev{Sess: alias, Kind: "app-send-ret", S: o.ID, St: sockState(sock)})
